@@ -26,6 +26,7 @@ POOL_QUICK = [
     A("use", "n", "3"), A("use", "n", "5"), A("not", "n", "3"), A("use", "n", "x"), A("not", "n", "x"),
     A("use", "n", "-5"), A("not", "n", "+7"),         # signed integer literals are integers, not malformed values
     A("use", "flag", "yes"), A("not", "flag", "off"), A("use", "flag", "maybe"),
+    A("use", "flag", "No"), A("not", "flag", "FALSE"), A("not", "flag", "On"),       # boolean words are case-insensitive
     A("use", "zz", "1"), A("not", "zz", "1"),
     A("use", "a.b", "v"), A("not", "a.b", "w"),
     ("wip", "plain", None, None), ("use.with_os", "plain", None, None), ("used.with_os=win", "plain", None, None),
@@ -56,6 +57,7 @@ REQUIRED = {"exclude.formula": {"quick": 100000, "thorough": 3000000}, "run_is_n
             "composite.any_excludes": 1000, "custom.schema": 500, "provider.composite_cache": 50,
             "provider.lazy_reevaluated": 50,
             "python.providers": 20, "unknown_or_plain_never_excludes": 1000}
+REQUIRED_SEEN = {"custom_notation_given_by": ["arguments", "subclass_attributes", "subclass_separator_attribute"]}
 EXHAUSTIVE = True
 EXHAUSTIVE_SCOPE = "all tag multisets up to the size bound over the pool x all provider configurations of the grid"
 NSHARDS = {"quick": 8, "thorough": 16}
@@ -350,7 +352,18 @@ def run(spec, mon):
         case = {"config": config, "prefixes": prefixes, "sep": sep, "tags": texts}
         mon.case(case, True)
         try:
-            m = tm.ActiveTagMatcher(lab.provider(config, "dict"), tag_prefixes=prefixes, value_separator=sep)
+            style = ("arguments", "subclass_attributes", "subclass_separator_attribute")[k % 3]
+            if style == "arguments":
+                m = tm.ActiveTagMatcher(lab.provider(config, "dict"), tag_prefixes=prefixes, value_separator=sep)
+            elif style == "subclass_attributes":
+                # the other documented way to get another notation: a subclass that overrides the class attributes
+                Sub = type("ProjectTagMatcher", (tm.ActiveTagMatcher,), {"tag_prefixes": list(prefixes), "value_separator": sep})
+                m = Sub(lab.provider(config, "dict"))
+            else:
+                Sub = type("ProjectTagMatcher", (tm.ActiveTagMatcher,), {"value_separator": sep})
+                m = Sub(lab.provider(config, "dict"), tag_prefixes=prefixes)
+            case["construction"] = style
+            mon.seen("custom_notation_given_by", style)
             got = m.should_exclude_with(texts)
             want = ref_exclude(config, tags)
             mon.check("custom.schema", got == want, lambda: dict(case=case, want=want, got=got))
